@@ -86,7 +86,11 @@ func (g *gen) hdlrPayload(handler string) []byte {
 	if g.hostile("hdlr:noterm", 25) {
 		return w.str(name).b // no terminator (an empty name then gives a 24-byte payload)
 	}
-	return w.cstr(name).b
+	w.cstr(name)
+	if g.pct("hdlr:padded", 8) {
+		w.zeros(g.rng("hdlr:padding", 1, 3)) // zero padding behind the terminator (seen from QuickTime-style writers)
+	}
+	return w.b
 }
 
 func (g *gen) handlerType(label string) string {
